@@ -1816,23 +1816,25 @@ fn core_word_map_end(xs: &mut State) -> Xresult {
 fn core_word_insert(xs: &mut State) -> Xresult {
     let key = xs.pop_data()?;
     let val = xs.pop_data()?;
-    match xs.pop_data()? {
-        Cell::Map(mut m) => {
+    match xs.pop_data()?.value() {
+        Cell::Map(m) => {
+            let mut m = m.clone();
             m.insert_mut(key, val);
             xs.push_data(Cell::Map(m))
         }
-        other => Err(Xerr::type_not_supported(other))
+        other => Err(Xerr::type_not_supported(other.clone()))
     }
 }
 
 fn core_word_remove(xs: &mut State) -> Xresult {
     let key = xs.pop_data()?;
-    match xs.pop_data()? {
-        Cell::Map(mut s) => {
+    match xs.pop_data()?.value() {
+        Cell::Map(s) => {
+            let mut s = s.clone();
             s.remove_mut(&key);
             xs.push_data(Cell::Map(s))
         }
-        other => Err(Xerr::type_not_supported(other))
+        other => Err(Xerr::type_not_supported(other.clone()))
     }
 }
 
@@ -2389,7 +2391,7 @@ fn core_word_nth(xs: &mut State) -> Xresult {
 
 fn core_word_get(xs: &mut State) -> Xresult {
     let key = xs.pop_data()?;
-    match xs.pop_data()? {
+    match xs.pop_data()?.value() {
         Cell::Vector(v) => {
             //fixme: remove Vector support?
             let idx = key.to_usize()?;
@@ -2401,7 +2403,7 @@ fn core_word_get(xs: &mut State) -> Xresult {
             let val = m.get(&key).unwrap_or_else(|| &NIL);
             xs.push_data(val.clone())
         }
-        other => Err(Xerr::type_not_supported(other)),
+        other => Err(Xerr::type_not_supported(other.clone())),
     }
 }
 
